@@ -352,6 +352,9 @@ func (s *Sim) revoke(y int) error {
 		return fmt.Errorf("model: signature covers %d updates, %s "+
 			"received %d", rec.Own, sideName(y), m.Recvd[y])
 	}
+	if s.OnBeforeRevoke != nil {
+		s.OnBeforeRevoke(y, h)
+	}
 	rev, _, _, err := ch.RevokeCurrentCommitment()
 	if err != nil {
 		return violationf("%s RevokeCurrentCommitment: %v", sideName(y), err)
